@@ -3,7 +3,7 @@
 // scripts as the extracted Coq model against the library built from /repo's
 // working tree and prints the same canonical trace lines.
 #include "kdrive.hpp"
-namespace vh { void run_sim_block(block const& b, trace& t); }
+namespace vh { void run_sim_block(block const& b, trace& t); void run_parse_block(block const& b, trace& t); void run_pcap_block(block const& b, trace& t); }
 
 int main(int argc, char** argv)
 {
@@ -14,6 +14,8 @@ int main(int argc, char** argv)
 	std::freopen("/dev/null", "w", stdout);
 	if (!getenv("VERIF_KEEP_STDERR")) std::freopen("/dev/null", "w", stderr);
 	if (mode == "kernel") return vh::run_blocks(argv[2], argv[3], do_fork, vh::run_kernel_block);
+	if (mode == "pcap") return vh::run_blocks(argv[2], argv[3], do_fork, vh::run_pcap_block);
+	if (mode == "parse") return vh::run_blocks(argv[2], argv[3], do_fork, vh::run_parse_block);
 	if (mode == "sim") return vh::run_blocks(argv[2], argv[3], do_fork, vh::run_sim_block);
 	return 2;
 }
